@@ -38,6 +38,9 @@ type C03Scenario struct {
 	Tasks  [][]tOp     `json:"tasks"`
 	// clones: Tasks[i] runs on tree i; tree 0 is the original, tree i>0 is a clone of tree Parent[i]
 	Parent []int `json:"parent,omitempty"`
+	// Bulk > 0 (wrapper-seq, core-seq): the tree first receives the keys 0..Bulk-1; the operations that follow use scan limits
+	// below and above that number
+	Bulk int `json:"bulk,omitempty"`
 }
 
 var (
@@ -67,6 +70,22 @@ func drawC03(rt *rapid.T) interface{} {
 	sc.Degree = rapid.SampledFrom([]int{2, 2, 3, 4, 8}).Draw(rt, "degree")
 	keyMax := rapid.SampledFrom([]int{6, 15, 40, hx.Pick(40, 120)}).Draw(rt, "keymax")
 	nextP := 1
+	if (sc.Mode == "wrapper-seq" || sc.Mode == "core-seq") && hx.Rare(rt, hx.Pick(500, 100), "bulk") {
+		// a tree of more than a thousand items, a few operations on it, scans that want more items than any small tree holds
+		sc.Bulk = rapid.SampledFrom([]int{1030, 1500, 2100}).Draw(rt, "bulkn")
+		nextP = sc.Bulk + 1
+		ops := drawOps(rt, rapid.IntRange(1, 10).Draw(rt, "bulkops"), map[bool][]string{true: wrapperOps, false: coreOps}[sc.Mode == "wrapper-seq"], &nextP, sc.Bulk)
+		for i := range ops {
+			ops[i].N = rapid.SampledFrom([]int{1, 100, 1023, 1024, 1025, 2000, 100000}).Draw(rt, "bulklimit")
+			ops[i].Filter = rapid.SampledFrom([]int{0, 0, 0, 1}).Draw(rt, "bulkfilter")
+			if ops[i].Op == "clear" {
+				ops[i].Op = "len"
+			}
+		}
+		sc.Tasks = [][]tOp{ops}
+		sc.Knobs = hx.DrawKnobs(rt, []int{10})
+		return sc
+	}
 	switch sc.Mode {
 	case "wrapper-conc":
 		nt := rapid.IntRange(2, 4).Draw(rt, "ntasks")
@@ -400,6 +419,14 @@ func runC03(t *testing.T, sci interface{}, keepLog bool) *hx.Outcome {
 		case "wrapper-conc", "wrapper-seq":
 			b := tree.NewBTree()
 			m := model{}
+			for k := 0; k < sc.Bulk; k++ {
+				op := tOp{Op: "insert", K: k, P: k + 1}
+				doWrapper(b, op)
+				m.applyWrapper(op)
+			}
+			if sc.Bulk > 0 {
+				s.Count("tree-of-more-than-1024-items")
+			}
 			var ts []*simrt.Task
 			for ti, ops := range sc.Tasks {
 				ti, ops := ti, ops
@@ -440,6 +467,12 @@ func runC03(t *testing.T, sci interface{}, keepLog bool) *hx.Outcome {
 		case "core-seq":
 			tr := btree.New(sc.Degree)
 			m := model{}
+			for k := 0; k < sc.Bulk; k++ {
+				doCore(tr, &m, tOp{Op: "insert", K: k, P: k + 1})
+			}
+			if sc.Bulk > 0 {
+				s.Count("tree-of-more-than-1024-items")
+			}
 			for _, op := range sc.Tasks[0] {
 				got, want := doCore(tr, &m, op)
 				s.Logf("%s k=%d k2=%d p=%d n=%d f=%d -> %s", op.Op, op.K, op.K2, op.P, op.N, op.Filter, got)
@@ -531,9 +564,9 @@ func TestC03(t *testing.T) {
 		Real:        []string{"ds/tree.BTree (locked wrapper) and ds/tree/btree (core, FreeList, Clone; simgen-transformed with statement-level preemption points)", "porcupine v1.3.0"},
 		Stubs:       []string{"sync (simsync.RWMutex, simsync.Mutex of the shared FreeList)", "goroutine scheduling (simrt)"},
 		Rule: "four scenario classes: wrapper-conc = 2-4 clients x up to 7 Insert/Update/UpdateOrInsert/Delete/Get/AscendGte/AscendGt/DescendLte/DescendLt (filters all/even/none/odd-payload, limits 0/1/3/100) checked with porcupine; wrapper-seq = up to 60 such ops checked op by op with the structural check; " +
-			"core-seq = up to 80 core ops (all scans incl. ranges, DeleteMin/Max) at degree 2/3/4/8; clones = a base tree cloned 1-3 times (clone of clone), every tree driven by its own task concurrently against its own model, shared 4-node free list; keys dense in [-2, 8..42]; " +
+			"core-seq = up to 80 core ops (all scans incl. ranges, DeleteMin/Max) at degree 2/3/4/8; clones = a base tree cloned 1-3 times (clone of clone), every tree driven by its own task concurrently against its own model, shared 4-node free list; keys dense in [-2, 8..42]; about 1 in 500 sequential scenarios (1 in 100 in the thorough tier) start from a tree holding 0..1029/1499/2099 and use scan limits 1-100000; " +
 			"non-trivial = >=2 tasks and >=1 switch (or >=3 ops sequentially); distinct = distinct event-log hash",
-		Probes:      []string{"mode-wrapper-conc", "mode-wrapper-seq", "mode-core-seq", "mode-clones", "porcupine-ok"},
+		Probes:      []string{"mode-wrapper-conc", "mode-wrapper-seq", "mode-core-seq", "mode-clones", "porcupine-ok", "tree-of-more-than-1024-items"},
 		Assumptions: []string{"Clone is taken while no task writes the tree being cloned (upstream contract); afterwards every tree is used by one task"},
 	})
 }
